@@ -7,8 +7,8 @@
     stands ([WStop]). *)
 From AV.Model Require Import Base Bytes Vec Ops Interp.
 From AV.Spec Require Import VecSpec.
-From AV.Proofs Require Import MemLemmas Rep VecProofs TempProofs RangeProofs CapProofs CloneProofs NoFault HandleProofs.
-From WIP Require Import WorldSpec WorldCore.
+From AV.Proofs Require Import MemLemmas Rep VecProofs TempProofs RangeProofs CapProofs CloneProofs NoFault HandleProofs FaultProofs.
+From WIP Require Import WorldSpec WorldCore WorldSplice.
 Arguments N.add : simpl never.
 Arguments N.sub : simpl never.
 Arguments N.mul : simpl never.
@@ -508,4 +508,212 @@ Proof.
     + rewrite wuw_put. lia.
     + rewrite wuw_put. exact Hfuse.
     + rewrite wuw_put. reflexivity.
+Qed.
+
+(** ** ... and splices *)
+
+(** dropping the [Splice] with the cursor at [i', j') in a world of the (moving) walk *)
+Lemma splice_finish c w0 vid av vv s e (a : api) ts k claimed i' j' ww st' evs :
+  cfg_wf c -> VI c vv av -> (s <= e)%nat -> (e <= length (a_xs av))%nat ->
+  WalkM c w0 vid av vv s ww st' evs -> (s <= i')%nat -> (i' <= j')%nat -> (j' <= e)%nat ->
+  Forall (tok_ok (szn c)) ts ->
+  (let nl := N.of_nat s + claimed + (N.of_nat (length (a_xs av)) - N.of_nat e) in
+   nl <= vcap vv \/ fixed_backend (vbk vv) \/ usize_max < nl \/ grow_ok c vv nl) ->
+  let xs := a_xs av in
+  let d := {| dcur := {| ci := N.of_nat s; ce := N.of_nat e |}; dstart := N.of_nat s; dend := N.of_nat e;
+              dorig := N.of_nat (length xs) |} in
+  let items := map (fun t => honest_item c t k) ts in
+  let finish := on_vec vid (splice_drop c (known_of a) (with_cur {| ci := N.of_nat i'; ce := N.of_nat j' |} d) claimed items) in
+  match sp_splice_fin c av s e i' j' ts claimed (N.of_nat (length ts)) with
+  | inl p => exists w', finish ww = Panic p w' /\ step_ok c w0 w' st' (evs ++ (if c_dg c then map EDrop ts else [])) 0
+  | inr (fevs, ys) => exists w', finish ww = Ok tt w' /\ step_ok c w0 w' (set_a vid (Some (with_xs av ys)) st') (evs ++ fevs) 0
+  end.
+Proof.
+  intros Hwf HV Hse' Hel' [[HRw Hnw Hfw Hew] Hvw Haw] Hb1 Hb2 Hb3 Htoks Hadm xs d items finish.
+  pose proof (vi_rep _ _ _ HV) as HR. fold xs in Hel', Hadm.
+  set (vr := with_len (N.of_nat s) vv) in *.
+  set (cl := N.to_nat claimed).
+  assert (Hcl' : claimed = N.of_nat cl) by (unfold cl; lia).
+  pose proof (range_alive_any c vv xs s e i' j' HR Hb1 Hb2 Hb3 Hel') as HA. fold vr in HA.
+  unfold sp_splice_fin. cbv zeta. fold xs.
+  assert (Hnl : N.of_nat s + claimed + N.of_nat (length xs - e) = N.of_nat (s + cl + (length xs - e))) by lia.
+  rewrite Hnl.
+  assert (Hpanic : forall p, splice_prep c (known_of a) (with_cur {| ci := N.of_nat i'; ce := N.of_nat j' |} d) (N.of_nat cl) (vr, wuw ww)
+                             = Panic p (vr, wuw ww) ->
+            exists w', finish ww = Panic p w' /\ step_ok c w0 w' st' (evs ++ (if c_dg c then map EDrop ts else [])) 0).
+  { intros p Hprep.
+    destruct (splice_drop_prep_panic c vr (wuw ww) (known_of a) _ ts k p _ Hfw Hprep) as (u' & Ed & Hn' & Hf' & He').
+    exists (put_vec vid (Some vr) u' ww). split.
+    - unfold finish. apply (on_vec_panic vid _ ww vr p vr u' Hvw). rewrite Hcl' at 1. exact Ed.
+    - constructor.
+      + apply (wrep_put_same c ww st' vid vr _ u' HRw Haw). apply (vi_prefix c vv av s HV). exact (Nat.le_trans _ _ _ Hse' Hel').
+      + rewrite wuw_put. lia.
+      + rewrite wuw_put. exact Hf'.
+      + rewrite wuw_put. rewrite He', Hew. rewrite rev_app_distr.
+        destruct (c_dg c); cbn [rev app]; rewrite <- ?app_assoc; try rewrite map_rev; reflexivity. }
+  destruct (N.ltb_spec usize_max (N.of_nat (s + cl + (length xs - e)))) as [Hov|Hnov].
+  - apply (Hpanic POverflow). apply (splice_prep_overflow c vr (wuw ww) xs s e i' j' (known_of a) cl HA Hov).
+  - destruct (match acap c (a_bk av) with Some cap => cap <? N.of_nat (s + cl + (length xs - e)) | None => false end) eqn:Ecap.
+    + apply (Hpanic PCapacity).
+      destruct (acap c (a_bk av)) as [cap|] eqn:Ea; [|discriminate].
+      apply N.ltb_lt in Ecap.
+      assert (Hcapv : vcap vv = cap). { pose proof (vi_cap _ _ _ HV) as H. rewrite Ea in H. exact H. }
+      apply (splice_prep_capacity c vr (wuw ww) xs s e i' j' (known_of a) cl HA).
+      * unfold vr. cbn [with_len vbk]. rewrite (vi_bk _ _ _ HV). eapply acap_fixed; eauto.
+      * unfold vr. cbn [with_len vcap]. lia.
+      * exact Hnov.
+    + assert (Hroom : N.of_nat (s + cl + (length xs - e)) <= vcap vr \/
+                      grow_ok c vr (N.of_nat (s + cl + (length xs - e)))).
+      { destruct (acap c (a_bk av)) as [cap|] eqn:Ea.
+        - left. apply N.ltb_ge in Ecap. pose proof (vi_cap _ _ _ HV) as H. rewrite Ea in H.
+          unfold vr. cbn [with_len vcap]. lia.
+        - assert (Hnf : ~ fixed_backend (vbk vv)). { rewrite (vi_bk _ _ _ HV). eapply acap_none_not_fixed; eauto. }
+          cbv zeta in Hadm.
+          assert (Hx : N.of_nat s + claimed + (N.of_nat (length xs) - N.of_nat e) = N.of_nat (s + cl + (length xs - e))) by lia.
+          rewrite Hx in Hadm.
+          destruct Hadm as [H1|[H1|[H1|H1]]]; [left; exact H1|contradiction|lia|right; exact H1]. }
+      destruct (splice_drop_liar_full c vr (wuw ww) xs s e i' j' (known_of a) ts k cl Hwf HA Hfw Htoks Hroom)
+        as (v' & u' & Ed & HR' & Hb' & Hn' & Hf' & He' & Hc').
+      exists (put_vec vid (Some v') u' ww). split.
+      * unfold finish. apply (on_vec_ok vid _ ww vr tt v' u' Hvw). rewrite Hcl' at 1. exact Ed.
+      * rewrite Nat2N.id. fold cl. constructor.
+        -- apply wrep_put; [exact HRw|].
+           destruct HV as [HRv Hbk Hbw Hcap Hfits]. constructor; cbn [with_xs a_bk a_xs]; auto.
+           ++ unfold vr in Hb'. cbn [with_len vbk] in Hb'. congruence.
+           ++ destruct (acap c (a_bk av)) as [cap|] eqn:Ea; [|exact I].
+              apply N.ltb_ge in Ecap. rewrite Hc'; [unfold vr; cbn [with_len vcap]; exact Hcap|].
+              unfold vr. cbn [with_len vcap]. lia.
+        -- rewrite wuw_put. lia.
+        -- rewrite wuw_put. exact Hf'.
+        -- rewrite wuw_put. rewrite He', Hew. rewrite !rev_app_distr.
+           rewrite rev_repeat.
+           destruct (c_dg c); cbn [rev app]; rewrite <- ?app_assoc; try rewrite map_rev; reflexivity.
+Qed.
+
+Lemma exec_splice_mv c w st a vid sb eb pat f rk n wrong_at claimed r :
+  cfg_wf c -> WRep c w st -> ufuse (wuw w) = None ->
+  sp_splice_mv c st (unext (wuw w)) vid sb eb pat f rk n wrong_at claimed = Some r ->
+  adm_splice c w vid sb eb claimed -> adm_pat c w vid pat ->
+  res_matches c w (exec c (OSplice a vid sb eb pat f rk n wrong_at claimed) w) r.
+Proof.
+  intros Hwf HW Hfuse Hr Hadm Hadmp.
+  destruct (sp_splice_mv_inv _ _ _ _ _ _ _ _ _ _ _ _ _ Hr) as (Hrk & -> & Hr').
+  clear Hr. rename Hr' into Hr. unfold sp_splice_mv0 in Hr.
+  destruct (get_a vid st) as [av|] eqn:Hg; [|discriminate].
+  destruct (wrep_get c w st vid av HW Hg) as (vv & Hgv & HV).
+  pose proof (vi_rep _ _ _ HV) as HR. pose proof (rep_len _ _ _ HR) as Hlen.
+  specialize (Hadm vv Hgv). rewrite Hlen in Hadm.
+  set (xs := a_xs av) in *. cbv zeta in Hr.
+  set (nn := N.to_nat n) in *.
+  set (ts := next_ids c (unext (wuw w)) nn) in *.
+  assert (Hlts : length ts = nn) by apply next_ids_length.
+  assert (Hn : n = N.of_nat (length ts)) by (rewrite Hlts; unfold nn; lia).
+  set (w0 := bump_by (N.of_nat nn) w).
+  assert (HW0 : WRep c w0 st) by (apply (wrep_wv c w w0 st eq_refl HW)).
+  assert (Hgv0 : get_vec vid w0 = Some vv) by exact Hgv.
+  assert (Hfuse0 : ufuse (wuw w0) = None) by exact Hfuse.
+  assert (Hnx0 : unext (wuw w0) = unext (wuw w) + n) by (unfold w0, bump_by, nn; cbn [wuw unext]; lia).
+  assert (Hev0 : uevents (wuw w0) = uevents (wuw w)) by reflexivity.
+  set (items := map (fun t => honest_item c t (rk_flag rk)) ts).
+  cbn [exec]. rewrite (bind_ok _ _ _ _ _ (peek_vec_ok vid w vv Hgv)).
+  rewrite (bind_ok _ _ _ _ _ (make_items_honest c rk Hrk nn 0 w)). fold ts items w0.
+  rewrite Hlen.
+  assert (Hstep : forall w' st' evs, step_ok c w0 w' st' evs 0 -> step_ok c w w' st' evs (unext (wuw w) + n - unext (wuw w))).
+  { intros w' st' evs [R Nx F E]. constructor; auto; try (rewrite Nx, Hnx0; lia); try (rewrite E, Hev0; reflexivity). }
+  destruct (range_of_bounds usize_max (N.of_nat (length xs)) (to_sb sb) (to_sb eb)) as [[sN eN]|] eqn:Erb.
+  - destruct (into_range_ok _ sb eb (vv, wuw w0) sN eN Erb) as (Eir & Hse & Hel).
+    set (s := N.to_nat sN) in *. set (e := N.to_nat eN) in *.
+    assert (HsN : sN = N.of_nat s) by (unfold s; rewrite N2Nat.id; reflexivity).
+    assert (HeN : eN = N.of_nat e) by (unfold e; rewrite N2Nat.id; reflexivity).
+    assert (Hse' : (s <= e)%nat) by lia. assert (Hel' : (e <= length xs)%nat) by lia.
+    rewrite (bind_ok _ _ _ _ _ (unwinding_okw _ _ _ _ _ (on_vec_ok vid _ w0 vv _ vv (wuw w0) Hgv0 Eir))). cbn [fst snd].
+    set (w1 := put_vec vid (Some vv) (wuw w0) w0).
+    set (vr := with_len (N.of_nat s) vv).
+    pose proof (drain_new_spec c vv (wuw w0) xs s e HR Hse' Hel') as Edn. rewrite <- HsN, <- HeN in Edn.
+    rewrite (bind_ok _ _ _ _ _ (on_vec_ok vid _ w1 vv _ _ _ (get_vec_put_same vid (Some vv) (wuw w0) w0) Edn)).
+    rewrite HsN, HeN. fold vr.
+    set (w2 := put_vec vid (Some vr) (wuw w1) w1).
+    set (d := {| dcur := {| ci := N.of_nat s; ce := N.of_nat e |}; dstart := N.of_nat s; dend := N.of_nat e;
+                 dorig := N.of_nat (length xs) |}).
+    cbn [dcur].
+    set (hid := with_xs av (firstn s xs)) in *.
+    set (hidden := set_a vid (Some hid) st) in *.
+    assert (Hw1 : w1 = w0) by (apply put_vec_id; exact Hgv0).
+    assert (Hwk0 : WalkM c w0 vid av vv s w2 hidden []).
+    { constructor.
+      - constructor.
+        + unfold w2, hidden. apply wrep_put; [rewrite Hw1; exact HW0|].
+          apply (vi_prefix c vv av s HV). fold xs. lia.
+        + unfold w2. rewrite wuw_put. unfold w1. rewrite wuw_put. lia.
+        + exact Hfuse0.
+        + reflexivity.
+      - apply get_vec_put_same.
+      - apply get_a_set_same. }
+    assert (Hadm2 : adm_pat c w2 vid pat).
+    { intros dd Hd. apply (adm_many_same c w w2 dd); [|apply Hadmp; exact Hd].
+      unfold w2, w1. rewrite !get_vec_put_other by exact Hd. reflexivity. }
+    set (finish := fun k : cursor => on_vec vid (splice_drop c (known_of a) (with_cur k d) claimed items)).
+    pose proof (walk_mv_spec c w0 vid av vv s e a Hwf HV Hse' Hel' finish pat s e w2 hidden [] Hwk0 (le_n s) Hse' (le_n e) Hadm2) as Hwalk.
+    fold xs in Hwalk. cbn [app] in Hwalk.
+    assert (Hcl : cur_len (dcur d) = N.of_nat (e - s)) by (unfold d, cur_len; cbn [dcur ci ce]; lia).
+    assert (Hadm' : let nl := N.of_nat s + claimed + (N.of_nat (length (a_xs av)) - N.of_nat e) in
+                    nl <= vcap vv \/ fixed_backend (vbk vv) \/ usize_max < nl \/ grow_ok c vv nl).
+    { cbv zeta in Hadm |- *. fold xs. rewrite <- HsN, <- HeN. exact Hadm. }
+    assert (Hfinish : forall ww st' evs i' j', WalkM c w0 vid av vv s ww st' evs -> (s <= i')%nat -> (i' <= j')%nat -> (j' <= e)%nat ->
+              match sp_splice_fin c av s e i' j' ts claimed n with
+              | inl p => exists w', finish {| ci := N.of_nat i'; ce := N.of_nat j' |} ww = Panic p w' /\
+                           step_ok c w0 w' st' (evs ++ (if c_dg c then map EDrop ts else [])) 0
+              | inr (fevs, ys) => exists w', finish {| ci := N.of_nat i'; ce := N.of_nat j' |} ww = Ok tt w' /\
+                           step_ok c w0 w' (set_a vid (Some (with_xs av ys)) st') (evs ++ fevs) 0
+              end).
+    { intros ww st' evs i' j' Hwk Hb1 Hb2 Hb3. rewrite Hn.
+      exact (splice_finish c w0 vid av vv s e a ts (rk_flag rk) claimed i' j' ww st' evs Hwf HV Hse' Hel' Hwk Hb1 Hb2 Hb3
+               (next_ids_tok_ok _ _ _) Hadm'). }
+    destruct (sp_walk_mv c vid xs pat s e hidden) as [[rets evs1 i' j' st' lost|p evs1 i' j' st' lost]|]; [| |discriminate].
+    + destruct Hwalk as (ww' & Ew & Hwk & Hb1 & Hb2 & Hb3).
+      rewrite (bind_ok _ _ _ _ _ Ew). cbn [fst snd].
+      specialize (Hfinish ww' st' evs1 i' j' Hwk Hb1 Hb2 Hb3).
+      destruct f.
+      * destruct (sp_splice_fin c av s e i' j' ts claimed n) as [p|[fevs ys]]; injection Hr as <-.
+        -- destruct Hfinish as (w' & Efin & Hok).
+           rewrite (bind_panic _ _ _ _ _ Efin).
+           cbn [res_matches panic_res s_out s_pk s_ret s_st s_evs s_nx].
+           split; [reflexivity|split; [reflexivity|split; [reflexivity|]]]. apply Hstep. exact Hok.
+        -- destruct Hfinish as (w' & Efin & Hok).
+           rewrite (bind_ok _ _ _ _ _ Efin). unfold ret. rewrite Hcl.
+           cbn [res_matches ok_res s_out s_pk s_ret s_st s_evs s_nx].
+           split; [reflexivity|split; [reflexivity|split; [reflexivity|]]]. apply Hstep. exact Hok.
+      * injection Hr as <-. unfold ret, bind. rewrite Hcl.
+        cbn [res_matches ok_res s_out s_pk s_ret s_st s_evs s_nx].
+        split; [reflexivity|split; [reflexivity|split; [reflexivity|]]]. apply Hstep. exact (wm_ok _ _ _ _ _ _ _ _ _ Hwk).
+    + destruct Hwalk as (ww1 & Ew & Hwk & Hb1 & Hb2 & Hb3).
+      specialize (Hfinish ww1 st' evs1 i' j' Hwk Hb1 Hb2 Hb3).
+      destruct (sp_splice_fin c av s e i' j' ts claimed n) as [p'|[fevs ys]]; [discriminate|]. injection Hr as <-.
+      destruct Hfinish as (w' & Efin & Hok).
+      assert (Equiet : quiet (finish {| ci := N.of_nat i'; ce := N.of_nat j' |}) ww1 = Ok tt w').
+      { apply quiet_none; [apply (so_fuse _ _ _ _ _ _ (wm_ok _ _ _ _ _ _ _ _ _ Hwk))|exact Efin|apply (so_fuse _ _ _ _ _ _ Hok)]. }
+      rewrite (bind_unwound _ _ _ _ _ _ Ew). unfold unwound. rewrite Equiet.
+      cbn [res_matches panic_res s_out s_pk s_ret s_st s_evs s_nx].
+      split; [reflexivity|split; [reflexivity|split; [reflexivity|]]]. apply Hstep. exact Hok.
+  - (* invalid range: panics before the vector is touched; the replacement values are destroyed *)
+    injection Hr as <-.
+    pose proof (into_range_panic _ sb eb (vv, wuw w0) Erb) as Ep.
+    pose proof (on_vec_panic vid _ w0 vv _ vv (wuw w0) Hgv0 Ep) as Ep'.
+    set (w1 := put_vec vid (Some vv) (wuw w0) w0) in *.
+    destruct (drop_items_ok c (rk_flag rk) vv ts (wuw w1) Hfuse0) as (u' & Ed & Hl & Hn' & Hf').
+    assert (Ecl : quiet (on_vec vid (drop_items c items)) w1 = Ok tt (put_vec vid (Some vv) u' w1)).
+    { apply quiet_none; [exact Hfuse0| |rewrite wuw_put; exact Hf'].
+      apply (on_vec_ok vid _ w1 vv tt vv u'); [apply get_vec_put_same|exact Ed]. }
+    assert (Eu : unwinding (on_vec vid (into_range (N.of_nat (length xs)) sb eb)) (on_vec vid (drop_items c items)) w0
+                 = Panic (range_panic sb eb) (put_vec vid (Some vv) u' w1)).
+    { unfold unwinding, on_unwind. rewrite Ep'. rewrite Ecl. reflexivity. }
+    rewrite (bind_panic _ _ _ _ _ Eu).
+    cbn [res_matches panic_res s_out s_pk s_ret s_st s_evs s_nx].
+    split; [reflexivity|split; [reflexivity|split; [reflexivity|]]].
+    apply Hstep. constructor.
+    + apply (wrep_put_same c w1 st vid vv av); [|assumption|assumption].
+      apply (wrep_put_same c w0 st vid vv av); assumption.
+    + rewrite wuw_put, Hn'. unfold w1. rewrite wuw_put. lia.
+    + rewrite wuw_put. exact Hf'.
+    + rewrite wuw_put. unfold uevents at 1. rewrite Hl, uevents_drops. destruct (c_dg c); try rewrite map_rev; reflexivity.
 Qed.
